@@ -244,6 +244,19 @@ def build_cases(rng, tier):
     for d in curated:
         for o in ({}, dict(ALL_EXT)):
             cases.append((o, d.encode(), "curated"))
+    # every ordered pair of inline constructs glued together (no space / one space), alone, after a soft break in a
+    # block quote, and in a list item: what one construct consumes beyond its own end shows in its neighbour
+    ADJ = ["w", "*e*", "**s**", "_u_", "`c`", "``c`d``", "[t](/u)", "[t](/u \"x\")", "![i](/i)", "[r]", "[r][]", "[t][r]", "![r]", "[^f]", "[^g]", "[x]", "[[w]]",
+           "<http://x.y>", "<a@b.c>", "http://e.x/a", "www.e.x", "a@b.c", "<b>", "<!-- c -->", "\\*", "&amp;", "&#65;", "$x$", "~~d~~", "~s~", "^p^", "||o||",
+           "__n__", "é", "!", "]", "[", "(", ")", ":", "\t"]
+    TAIL = "\n\n[r]: /u\n\n[^f]: n\n"
+    for a in ADJ:
+        for b in ADJ:
+            for glue in ("", " "):
+                t = a + glue + b
+                pick = rng.random()
+                ctx = (t + " z" + TAIL) if pick < 0.4 else ("> q\n> " + t + " z" + TAIL) if pick < 0.7 else ("- " + t + "\n  " + t + TAIL)
+                cases.append((dict(ALL_EXT), ctx.encode(), "adjacent"))
     allx = dict(ALL_EXT)
     for d in exhaustive_small(4 if tier == "quick" else 5):
         cases.append((allx, d.encode(), "exhaustive"))
